@@ -149,7 +149,7 @@ func genC10(r *Rng, tier string) []Case {
 	keysOnce()
 	cs := []Case{}
 	mem := func(kind string, args ...Sx) { cs = append(cs, Case{"mem", append([]Sx{Sym(kind)}, args...)}) }
-	huge := []uint64{1 << 20, 1<<24 - 1, 1 << 31, 1<<32 - 1, 1 << 40, 1<<63 - 1, 1 << 63, 1<<64 - 1}
+	huge := []uint64{1 << 20, 1<<24 - 1, 1 << 26, 1 << 27, 1 << 30, 1<<31 - 1, 1 << 31, 1<<32 - 1, 1 << 40, 1<<63 - 1, 1 << 63, 1<<64 - 1}
 	// CBOR: declared lengths far beyond the input
 	for _, v := range huge {
 		for _, major := range []byte{0x40, 0x60} {
